@@ -81,6 +81,15 @@ theorem findSegments_loops_counterexample (st : TarSeg.St) (hz : st.zeroes = fal
 theorem negative_size_rejected : TarSeg.header true negSizeHeader = .fail .negSize := by
   decide +kernel
 
+/-- a well-formed header block (3-byte regular file) passes every check of one
+    loop iteration (whole-archive examples are in corpus/C06/01-tar.ops, answered
+    identically by the model driver and the real code on every run) -/
+def okHeader : TarSeg.Bytes :=
+  List.replicate 124 0 ++ [48, 48, 48, 48, 48, 48, 48, 48, 48, 48, 51, 0] ++
+  List.replicate 20 0 ++ [48] ++ List.replicate 100 0 ++ TarSeg.magicPAX ++ TarSeg.version00 ++ List.replicate 247 0
+
+example : TarSeg.header true okHeader = .next 3 .data := by decide +kernel
+
 /-- Tie A: the constants the model of `findSegments` uses are the ones in the
     current source of pkg/tarfs/parse.go (block size, field offsets, magic
     strings, version, length of the size field, the two typeflag lists), and the
@@ -130,6 +139,8 @@ theorem load_no_panic (b : RpmHeader.Bytes) : RpmHeader.run b ≠ .panic := by
 /-- The 28-byte header of DESIGN §5 row 16: one entry, `TagName` typed INT32. -/
 def nameInt32Header : RpmHeader.Bytes :=
   [0, 0, 0, 1,  0, 0, 0, 4,   0, 0, 3, 232,  0, 0, 0, 4,  0, 0, 0, 0,  0, 0, 0, 1,   0, 0, 0, 1]
+
+example : (RpmHeader.parse nameInt32Header).isSome = true := by decide +kernel
 
 /-- With the bare assertions `v.(string)` of the code before the fix
     (`fixed:` 309787f9) that header is accepted by `Parse` (no region, so no
